@@ -82,7 +82,7 @@ fn c11_bar_region_common() { bar_region_body::<CommonCfg>(core::mem::size_of::<C
 fn c11_bar_region_u8() { bar_region_body::<u8>(1) }
 
 // ---- capability scan -----------------------------------------------------------------------------------
-// @harness props=C11 tier=quick timeout=1800
+// @harness props=C11,C13 tier=quick timeout=1800
 #[kani::proof]
 #[kani::unwind(18)]
 fn c11_new_scan() {
